@@ -207,7 +207,8 @@ class Func:
             self.st("ret", xs=["_nil" if zero_desc(t) == "P" else "_" for t in self.results], zero=True)
     def panic(self, x="_"):           self.st("panic", a=x)
     def recover(self, d):             self.st("recover", d=d)
-    def mkchan(self, d, n=1):         self.st("mkchan", d=d, n=n)
+    def mkchan(self, d, n=1, typ="string"): self.st("mkchan", d=d, n=n, typ=typ)
+    def selrecv(self, d, c, q):       self.st("selrecv", d=d, p=c, q=q)   # select { case <-q: ; case d = <-c: } (q is never ready)
     def send(self, c, x):             self.st("send", p=c, a=x)
     def recv(self, d, c):             self.st("recv", d=d, p=c)
     def gate(self, k):                self.st("gate", n=k)
@@ -743,7 +744,7 @@ class Prog:
                 code.append(I("recover", d=d)); post()
             elif k == "mkchan":
                 d, post = self._def(f, code, s["d"])
-                ln = self._line("%s%s = make(chan string, %d)" % (tab, s["d"], s["n"]))
+                ln = self._line("%s%s = make(chan %s, %d)" % (tab, s["d"], s.get("typ", "string"), s["n"]))
                 code.append(I("mkchan", d=d, n=ln, l=[s["n"]])); post()
             elif k == "send":
                 p = self._use(f, code, s["p"]); a = self._use(f, code, s["a"])
@@ -752,6 +753,14 @@ class Prog:
             elif k == "recv":
                 p = self._use(f, code, s["p"]); d, post = self._def(f, code, s["d"])
                 ln = self._line("%s%s = <-%s" % (tab, s["d"], s["p"]) if s["d"] not in ("", "_") else "%s<-%s" % (tab, s["p"]))
+                code.append(I("recv", d=d, a=[p], n=ln)); post()
+            elif k == "selrecv":
+                # the quit channel is never ready and the data channel holds one element: the select takes the receive
+                p = self._use(f, code, s["p"]); d, post = self._def(f, code, s["d"])
+                self._line("%sselect {" % tab)
+                self._line("%scase <-%s:" % (tab, s["q"]))
+                ln = self._line("%scase %s = <-%s:" % (tab, s["d"], s["p"]))
+                self._line("%s}" % tab)
                 code.append(I("recv", d=d, a=[p], n=ln)); post()
             elif k == "gate":
                 ln = self._line("%sgate(%d)" % (tab, s["n"]))
